@@ -103,6 +103,7 @@ class Recorder:
         self.guard_vals: Dict[str, Any] = {}
         self.fault: Optional[Callable[[str, str], None]] = None  # (kind,name)->raise?
         self.with_conf = True
+        self.budget: Optional[int] = None  # max log length before Budget is raised
         self.clock: Optional[Callable[[], float]] = None
 
     # ---- user code stubs -------------------------------------------------
@@ -112,6 +113,10 @@ class Recorder:
             self.log.append(
                 ("A", name, t, n, conf_ids(interp) if self.with_conf else None)
             )
+            if self.budget is not None and len(self.log) > self.budget:
+                from .core import Budget
+
+                raise Budget(f"more than {self.budget} log entries")
             if self.fault is not None:
                 self.fault("action", name)
 
@@ -138,11 +143,14 @@ class Recorder:
         services: Optional[Dict[str, Any]] = None,
         delays: Optional[Dict[str, Any]] = None,
         extra_actions: Optional[Dict[str, Any]] = None,
+        extra_guards: Optional[Dict[str, Any]] = None,
     ) -> MachineLogic:
         actions: Dict[str, Any] = {n: self.marker(n) for n in action_names(cfg)}
         if extra_actions:
             actions.update(extra_actions)
         g = {n: self.guard(n) for n in (guards or [])}
+        if extra_guards:
+            g.update(extra_guards)
         # `X or {}` inside MachineLogic: empty dicts are fine (get() -> None)
         return MachineLogic(
             actions=actions, guards=g, services=services or {}, delays=delays or {}
